@@ -235,7 +235,12 @@ func init() {
 		assumptions: append([]string{"the origin is the adversary: structure-aware samples per declared type (HTML, JSON, XML, sitemap, S3 listing, M3U8, PDF, plain text) damaged by generic mutations, plus hostile Location / Link / Content-Type / Content-Encoding headers and lying lengths; coverage-guided fuzzing of the extractors would dig deeper per CPU hour but is another technique", "a process crash (Go panic / fatal error) anywhere in the crawler, a goroutine still running inside input processing when the wall-clock limit expires, or damage spreading to well-behaved seeds are violations; a watchdog expiry without such a goroutine is reported as infrastructure failure, not as a violation"}, e2eAssumptions...),
 		components:  e2eComponents,
 		rule:        "one case = 1-4 hostile documents (as seed or as asset of a page) next to 1-2 well-behaved bystander seeds, crawled end to end under one seeded schedule; distinct/non-trivial as for C01",
-		gen:         func(t *scen.Tape, i int, tier string) *scen.Scenario { return scen.GenHostile(t) }}
+		gen: func(t *scen.Tape, i int, tier string) *scen.Scenario {
+			if i == 0 {
+				return scen.HostilePDFNestedDicts() // pinned: the recorded finding (see known_findings.json) is exercised by every run of the check
+			}
+			return scen.GenHostile(t)
+		}}
 	c17crawl := props["C17x"]
 	delete(props, "C17x")
 	props["C17"] = &propDef{level: "exploration", quickRuns: 120, thorRuns: 4000,
